@@ -74,7 +74,7 @@ func runC07(res *Result, d *Driver, tier string, seed uint64) {
 	steps := 0
 	for i := 0; i < nA; i++ {
 		n := rng.Next() & (1<<29 - 1)
-		line := fmt.Sprintf("c07.fail %d 13", n)
+		line := fmt.Sprintf("c07.fail %d %d", n, []int{13, 1, 22, 12, 5}[i%5])
 		ans := strings.Fields(d.Ask(line))
 		res.Case(line, true, "fault-sweep")
 		if len(ans) >= 1 {
@@ -271,7 +271,12 @@ func runC07(res *Result, d *Driver, tier string, seed uint64) {
 		fail := i%4 >= 2
 		var bad []string
 		var cbPid int
-		spec := RunSpec{Script: "touch /tmp/ran;exit 0", SyncFunc: func(pid int) error {
+		script := "touch /tmp/ran;exit 0"
+		if fail {
+			script = "sleep 1500;touch /tmp/ran;exit 0" // a refused program must be killed, not left to finish
+		}
+		t0 := time.Now()
+		spec := RunSpec{Script: script, SyncFunc: func(pid int) error {
 			cbPid = pid
 			st, e := os.ReadFile(fmt.Sprintf("/proc/%d/status", pid))
 			if e != nil {
@@ -295,8 +300,11 @@ func runC07(res *Result, d *Driver, tier string, seed uint64) {
 		if cbPid == 0 {
 			bad = append(bad, "callback not invoked")
 		}
-		if fail && !after && ran {
-			bad = append(bad, "target ran although the callback refused (sync before exec)")
+		if fail && ran {
+			bad = append(bad, "target ran to completion although the callback refused")
+		}
+		if el := time.Since(t0); fail && el > time.Second {
+			bad = append(bad, fmt.Sprintf("refused run returned only after %v: the program was not killed when the call returned", el))
 		}
 		if fail && r.Status != runner.StatusRunnerError {
 			bad = append(bad, "refusal not reported: "+r.String())
